@@ -213,6 +213,10 @@ class C29(Prop):
             '/..//evil.com', '.evil.com/', ':p@evil.com/', '\t', '/a b', '?next=//evil.com', '\\@evil.com']
     FOREIGN = ['evil.com', 'evil.com', 'EVIL.com', '127.1', '0x7f.1', '[::1]', '[v1.x]', '[::1', '', 'localhost', '169.254.169.254', '1.2.3.4.5',
                'xn--evil', 'ev%69l.com', 'ⓔvil.com', 'a..b', '%00', 'e vil.com', '4294967295', '0x.0x.0', '1.1.1.256', 'a.0x', '08', '%']
+    # percent-encoded delimiters (upper / lower hex, double and triple encoding): a validator that decodes before parsing sees a
+    # different authority than the browser, which gets the raw string
+    ENC = ['%2F', '%2f', '%23', '%3F', '%3f', '%5C', '%5c', '%40', '%3A', '%3a', '%252F', '%2523', '%2540', '%25252F', '%09', '%0a', '%00',
+           '%2E', '%20']
     MUT_CHARS = list('/\\@:?#.%[]- \t\n\r\x00\x1fhaisAZ09+;&=') + ['。', '．', '｡', 'é', '℀', '／', '​', '\U0001f600']
 
     def _host_variant(self, rng, hosts, domain):
@@ -222,6 +226,14 @@ class C29(Prop):
             return h
         if r < 0.55:
             return rng.choice(self.FOREIGN)
+        if r < 0.67:
+            e, e2 = rng.choice(self.ENC), rng.choice(self.ENC)
+            f = rng.choice(['evil.com', 'evil.com', 'EVIL.com', '127.1', 'evil.com:8443', h + '.evil.com'])
+            return rng.choice([
+                h + e + '@' + f, h + e + '@' + f, h + e + f, h + e + e2 + '@' + f, h + e + '@' + f + e2, f + e + '@' + h, 'u' + e + 'p@' + h,
+                'u:' + e + '@' + h, h + ':' + e + '@' + f, h + ':443' + e + '@' + f, h + e, e + h, h + '@' + f + e + h, h + e + ':80@' + f,
+                'user' + e + h + '@' + f, h + e + '.' + f,
+            ])
         variants = [
             h.upper(), h + '.', h + '.evil.com', 'evil.com.' + h, 'evil' + h, 'x.' + domain, 'x' + domain, domain, h[1:], h[:-1],
             h[:len(h) // 2], h[len(h) // 2:], h.replace('.', '。'), h.replace('.', '．', 1), h.replace('.', '%2e', 1),
@@ -266,12 +278,20 @@ class C29(Prop):
             yield {'domain': domain, 'base_path': bp, 'url': self.gen_url(rng, domain, bp)}
 
     def shrink(self, c, fails):
+        """delete characters of the URL while the SAME kind of failure (foreign host / non-http scheme / …) remains"""
         cur = dict(c)
+        m0 = self.oracle(cur, self.impl(cur))
+        if not m0 or not fails(cur):
+            return cur
+        kind = m0.split(':', 1)[0]
 
         def f(chars):
-            return fails({**cur, 'url': ''.join(chars)})
-        if fails(cur):
-            cur['url'] = ''.join(generic_shrink_list(list(cur['url']), f))
+            c2 = {**cur, 'url': ''.join(chars)}
+            if not fails(c2):
+                return False
+            m2 = self.oracle(c2, self.impl(c2))
+            return bool(m2) and m2.split(':', 1)[0] == kind
+        cur['url'] = ''.join(generic_shrink_list(list(cur['url']), f))
         return cur
 
 
